@@ -21,7 +21,7 @@ class Work:
         disps = {}
 
         def schedule(a):
-            rec = acts[a["id"]] = {"id": a["id"], "due": sim.now + (a["ms"] or 0) * 1000, "start": None, "start_t": None, "thread": None,
+            rec = acts[a["id"]] = {"id": a["id"], "due": sim.now + max(0, a["ms"] or 0) * 1000, "start": None, "start_t": None, "thread": None,
                                    "disp_ret": None, "disp_ret_t": None, "runs": 0}
 
             def action(sch, st=None):
@@ -134,14 +134,14 @@ class Prop:
             for i in range(n):
                 ctx = rng.choice(["pre", "loop", "foreign"])
                 t = rng.choice([0, 0, 1, 3])
-                ops.append(["sched", {"id": i, "ms": rng.choice([None, None, 1, 2, 5, 10])}, t, ctx])
+                ops.append(["sched", {"id": i, "ms": rng.choice([None, None, 1, 2, 5, 10, 0, 0, -1])}, t, ctx])
                 if rng.random() < 0.85:
                     dctx = rng.choice(["loop", "foreign", "foreign"] + (["pre"] if ctx == "pre" else []))
                     ops.append(["dispose", i, t + rng.choice([0, 0, 0, 1, 2, 4, 5, 9, 10, 11]), dctx])
             return {"mode": mode, "scheduler": "threadsafe", "ops": ops, "sched": th.gen_sched(rng, ks=(0, 1, 2, 3, 3), spurious_p=0.3, sweep_p=0.02, stall_p=0.3)}
         ops = []
         for i in range(n):
-            ms = rng.choice([None, None, 1, 2, 5, 10])
+            ms = rng.choice([None, None, 1, 2, 5, 10, 0, 0, -1])
             ops.append(["sched", {"id": i, "ms": ms}, rng.choice([0, 0, 1, 3])])
             if rng.random() < 0.8:
                 ops.append(["dispose", i, rng.choice([0, 0, 0, 1, 2, 4, 5, 9, 10, 11])])
